@@ -29,7 +29,11 @@ def _case(draw, tier):
             "cuts": draw(st.lists(st.integers(0, 10 ** 6), min_size=1, max_size=4)),
             "extra_out": draw(st.lists(st.floats(0.01, 0.99), min_size=0, max_size=3)),
             "entropy": draw(st.integers(0, 2 ** 31 - 2)),
-            "cache_size": draw(st.sampled_from([45, 45, 1, 3, None]))}
+            "cache_size": draw(st.sampled_from([45, 45, 1, 3, None])),
+            # how the solver state is handed back: as returned (a tuple), as a list (any Sequence[Tensor] is valid input),
+            # and whether the chunks are requested through sdeint_adjoint (same forward values, returns a list)
+            "extra_as_list": draw(st.sampled_from([False, False, True])),
+            "chain_via_adjoint": draw(st.sampled_from([False, False, False, True]))}
 
 
 def strategy(tier):
@@ -44,7 +48,8 @@ def enumerate_cases(tier):
         t0 = rnd.choice([0.0, 0.1, -0.5])
         yield {"spec": spec, "combo": combo, "time": {"t0": t0, "t1": t0 + (n + 0.4) * dt, "dt": dt, "tdtype": "float64"},
                "cuts": [rnd.randrange(10 ** 6), n - 1, rnd.randrange(10 ** 6)], "extra_out": [0.45],
-               "entropy": rnd.randrange(2 ** 31 - 2), "cache_size": rnd.choice([45, 1, None])}
+               "entropy": rnd.randrange(2 ** 31 - 2), "cache_size": rnd.choice([45, 1, None]),
+               "extra_as_list": rnd.random() < 0.4, "chain_via_adjoint": rnd.random() < 0.3}
 
 
 def run_case(case):
@@ -86,9 +91,12 @@ def run_case(case):
         for a, b in zip(bounds[:-1], bounds[1:]):
             ta, tb = grid_f[a], grid_f[b]
             ts_chunk = torch.tensor([t for t in all_t if ta <= t <= tb], dtype=dtype)
+            if extra is not None and case.get("extra_as_list"):
+                extra = list(extra)
             kw = {} if extra is None else {"extra_solver_state": extra}
-            ys_c, extra = torchsde.sdeint(sde, y, ts_chunk, bm=rec, method=combo["method"], dt=dt,
-                                          options=dict(combo["options"]) or None, extra=True, **kw)
+            api = torchsde.sdeint_adjoint if case.get("chain_via_adjoint") else torchsde.sdeint
+            ys_c, extra = api(sde, y, ts_chunk, bm=rec, method=combo["method"], dt=dt,
+                              options=dict(combo["options"]) or None, extra=True, **kw)
             for t, v in zip(ts_chunk, ys_c):
                 pieces[float(t)] = v
             y = ys_c[-1]
@@ -113,5 +121,9 @@ def run_case(case):
     labels = [solve.combo_label(combo), f"chunks={len(bounds) - 1}", f"dtype={spec['dtype']}"]
     if len(extra_one):
         labels.append("nonempty_extra_state")
+    if case.get("extra_as_list"):
+        labels.append("extra_state_passed_as_list")
+    if case.get("chain_via_adjoint"):
+        labels.append("chunks_via_sdeint_adjoint")
     return Result(nontrivial=len(bounds) >= 3 and sum(1 for s in steps if s >= 2) >= 2, labels=labels, checks=checks,
                   metrics={"steps": len(grid) - 1})
